@@ -77,7 +77,7 @@ impl PartialOrd for F {
     #[verifier::external_body] fn ge(&self, o: &F) -> (r: bool) ensures r == f_le(*o, *self) { unimplemented!() }
 }
 impl F {
-    #[verifier::external_body] pub fn zero() -> (r: F) ensures r == f_zero() { unimplemented!() }
+    #[verifier::external_body] pub fn zero() -> (r: F) ensures r == f_zero(), f_eq(r, r) /* IEEE: 0.0 == 0.0 */ { unimplemented!() }
     #[verifier::external_body] pub fn one() -> (r: F) ensures r == f_one() { unimplemented!() }
     #[verifier::external_body] pub fn epsilon() -> (r: F) ensures r == f_eps() { unimplemented!() }
     #[verifier::external_body] pub fn nan() -> (r: F) ensures r == f_nan() { unimplemented!() }
